@@ -230,6 +230,11 @@ def check(rep, tier, seed):
     # that decide without consulting the destination's authorizer) are discharged here as well (same queries as C03)
     import p_c03
     p_c03.check_authorize(rep, ctx)
+    # "a request is relayed only if ... attributed": what authorize() is given is the context's destination and claims, and the context is
+    # bound to the kernel's record by TcpConnectionContext::new - its obligations (destination address and host-order port, claims, upstream
+    # connection all from the one record; C07) are discharged here as well, a wrong binding being a wrong authorization
+    import p_c07
+    p_c07.check(rep, tier, seed)
     rep.stubs += ["every callee not inlined is uninterpreted: arbitrary result of its type, one trace event (list in coverage.uninterpreted_callees)"]
     rep.assumptions += ["Future::poll returns Ready (progress); Pending branches are not explored",
                         "nightly built-phase MIR = semantics of the stable build"]
